@@ -69,6 +69,9 @@ pub struct DumpOpts {
     pub stop_timeout_ms: Option<u64>,
     pub failspots: Vec<String>,
     pub name_faults: Vec<i32>,
+    /// (worker only) SIGKILL the target when this hook point is reached: e.g. ("Flushed", 3)
+    #[serde(default)]
+    pub kill_at: Option<(String, u32)>,
 }
 
 impl DumpOpts {
